@@ -1,6 +1,7 @@
 import N2k.Lemmas.SendQueue
 import N2k.Lemmas.Framing
 import N2k.Lemmas.SeqCounter
+import N2k.Lemmas.SeqSlots
 import N2k.Spec.FastPacketPGNs
 /-!
 # C01 — Sent messages are framed per NMEA 2000 (CAN id, single frame, fast packet)
@@ -263,6 +264,79 @@ theorem C01_sequence_first (pgn : Nat) (hp : pgn < 2^24) (h0 : pgn ≠ 0) (slots
     (seqStep pgn true slots).2 = 0 ∧ lookup pgn (seqStep pgn true slots).1.dropLast = some 0 := by
   obtain ⟨f, h1, h2⟩ := seqScan_first pgn hp h0 slots.dropLast hnone hfree hfresh
   simp [seqStep, h1, h2]
+
+/-- **C01_sequence_declared.** From the freshly allocated slot array (one slot per declared fast-packet
+transmit PGN `L`, plus the common one): the successive fast-packet messages of a declared PGN carry the
+sequence ids 0, 1, 2, … modulo 8, for every interleaving with any other PGNs, declared or not. No
+hypothesis on free slots is needed: a declared PGN always finds one (pigeonhole, `free_slot_exists`). -/
+theorem C01_sequence_declared (L : List Nat) (pgn : Nat) (hp : pgn < 2^24) (h0 : pgn ≠ 0) (hL : pgn ∈ L) :
+    ∀ (calls : List (Nat × Bool)) (slots : List Nat), SlotInv slots.dropLast L →
+      lookup pgn slots.dropLast = none →
+      (∀ q ∈ calls, q.1 < 2^24 ∧ q.1 ≠ 0 ∧ (q.2 = true → q.1 ∈ L)) →
+      (∀ q ∈ calls, q.1 = pgn → q.2 = true) →
+      ((seqRun slots calls).filter (·.1 == pgn)).map (·.2)
+        = (List.range ((calls.filter (·.1 == pgn)).length)).map fun k => k % 8
+  | [], _, _, _, _, _ => rfl
+  | (p, d) :: t, slots, hI, hn, hq, hdecl => by
+    have hq' : ∀ q ∈ t, q.1 < 2^24 ∧ q.1 ≠ 0 ∧ (q.2 = true → q.1 ∈ L) := fun q h => hq q (by simp [h])
+    have hdecl' : ∀ q ∈ t, q.1 = pgn → q.2 = true := fun q h => hdecl q (by simp [h])
+    by_cases hpe : p = pgn
+    · subst hpe
+      have hd : d = true := hdecl (p, d) (by simp) rfl
+      subst hd
+      obtain ⟨hfree, hfresh⟩ := free_slot_exists p slots.dropLast L hI hL hn
+      obtain ⟨r1, r2⟩ := C01_sequence_first p hp h0 slots hn hfree hfresh
+      have hrest := C01_sequence p hp h0 t (seqStep p true slots).1 0 (by omega) r2
+        (fun q h => ⟨(hq' q h).1, (hq' q h).2.1⟩)
+      simp only [seqRun, List.filter_cons, beq_self_eq_true, ↓reduceIte, List.map_cons, List.length_cons, r1]
+      rw [hrest, List.range_succ_eq_map, List.map_cons, List.map_map]
+      congr 1
+      apply List.map_congr_left
+      intro k _
+      simp only [Function.comp, Nat.succ_eq_add_one]
+      congr 1; omega
+    · have hb : (p == pgn) = false := by simp [hpe]
+      have hpp := hq (p, d) (by simp)
+      have hdl := seqStep_dropLast p d slots
+      have hI' : SlotInv (seqStep p d slots).1.dropLast L ∧ lookup pgn (seqStep p d slots).1.dropLast = none := by
+        rw [hdl]
+        cases hs : seqScan p d slots.dropLast with
+        | none => exact ⟨hI, hn⟩
+        | some r =>
+          obtain ⟨f, sc⟩ := r
+          exact ⟨slotInv_scan p d hpp.1 hpp.2.1 _ L f sc hI hpp.2.2 hs,
+                 lookup_none_scan pgn p d hpe hpp.1 hpp.2.1 _ L f sc hI hn hs⟩
+      simp only [seqRun, List.filter_cons, hb, Bool.false_eq_true, ↓reduceIte]
+      exact C01_sequence_declared L pgn hp h0 hL t _ hI'.1 hI'.2 hq' hdecl'
+
+/-- the array `GetSequenceCounter` allocates on first use satisfies the hypotheses of `C01_sequence_declared` -/
+theorem C01_sequence_fresh (L : List Nat) (pgn : Nat) :
+    SlotInv (List.replicate (L.length + 1) 0).dropLast L ∧
+    lookup pgn (List.replicate (L.length + 1) 0).dropLast = none := by
+  have : (List.replicate (L.length + 1) 0).dropLast = List.replicate L.length 0 := by
+    rw [List.replicate_succ']; simp
+  rw [this]
+  refine ⟨slotInv_init L, ?_⟩
+  cases L.length with
+  | zero => rfl
+  | succ n => simp [List.replicate_succ, lookup]
+
+/-- the declared fast-packet transmit PGNs of a device (library defaults ++ application list) -/
+def declaredFP (ls : Lists) (d : Dev) : List Nat :=
+  Gen.defTransmitMessages.filter (isFastPacketPGN ls) ++ d.txList.filter (isFastPacketPGN ls)
+
+/-- the model's `getSequenceCounter` allocates exactly one slot per entry of `declaredFP` plus the common
+one, and lets exactly the members of `declaredFP` take a free slot — the premises of `C01_sequence_declared` -/
+theorem C01_sequence_premises (ls : Lists) (d : Dev) (pgn : Nat) :
+    fpTxCount ls d = (declaredFP ls d).length ∧
+    ((isTxPGN d pgn && isFastPacketPGN ls pgn) = true → pgn ∈ declaredFP ls d) := by
+  refine ⟨by simp [fpTxCount, declaredFP], ?_⟩
+  intro h
+  simp only [Bool.and_eq_true, isTxPGN, Bool.or_eq_true, List.contains_eq_mem, decide_eq_true_eq] at h
+  simp only [declaredFP, List.mem_append, List.mem_filter]
+  rcases h.1 with h1 | h1
+  · exact Or.inl ⟨h1, h.2⟩
+  · exact Or.inr ⟨h1, h.2⟩
 
 /-! ## classification -/
 
